@@ -34,11 +34,11 @@ def gen_cfg(rng, kind):
         return {"kind": kind, "width": 1 if one else int(rng.integers(1, 40)), "depth": 1 if rng.random() < 0.2 else int(rng.integers(1, 9))}
     if kind == "log16":
         return {"kind": kind, "width": 1 if one else int(rng.integers(1, 40)), "depth": 1 if rng.random() < 0.2 else int(rng.integers(1, 6)),
-                "max_count": pick(rng, [70000, 10**6, 2**32 - 1, 2**32 + 12345, 2**53 + 1, 2**63]),
+                "max_count": pick(rng, [70000, 10**6, 2**32 - 1, 2**32 + 12345, 2**53 + 1, 2**63, 2**63 + 12345, 2**64 - 1]),
                 "num_reserved": pick(rng, [0, 1, 77, 1023, 5000])}
     if kind == "log8":
         return {"kind": kind, "width": 1 if one else int(rng.integers(1, 40)), "depth": 1 if rng.random() < 0.2 else int(rng.integers(1, 6)),
-                "max_count": pick(rng, [300, 10**4, 10**6, 2**32 - 1, 2**32 + 12345, 2**63]),
+                "max_count": pick(rng, [300, 10**4, 10**6, 2**32 - 1, 2**32 + 12345, 2**53 + 1, 2**63, 2**63 + 12345, 2**64 - 1]),
                 "num_reserved": pick(rng, [0, 1, 15, 40, 100])}
     if kind == "hh":
         cfg = {"kind": kind, "width": 1 if one else int(rng.integers(1, 12)), "depth": 1 if rng.random() < 0.2 else int(rng.integers(1, 5)),
